@@ -76,34 +76,47 @@ func (v *legacyVisitor) VisitParentheses(ctx *gen.ParenthesesContext) any {
 
 // VisitNegation deals with negations such as -5
 func (v *legacyVisitor) VisitNegation(ctx *gen.NegationContext) any {
-	return fmt.Sprintf("-%s", v.Visit(ctx.Expression()))
+	return fmt.Sprintf("-%s", v.visitOperand(ctx.Expression()))
+}
+
+// visits an operand of an operator.. a function call can migrate to something that needs parentheses to remain one operand
+func (v *legacyVisitor) visitOperand(ctx gen.IExpressionContext) string {
+	migrated := v.Visit(ctx).(string)
+
+	if _, isCall := ctx.(*gen.FunctionCallContext); isCall {
+		return group(migrated)
+	}
+	return migrated
 }
 
 // VisitExponentExpression deals with exponenets such as 5^5
 func (v *legacyVisitor) VisitExponentExpression(ctx *gen.ExponentExpressionContext) any {
-	arg1 := v.Visit(ctx.Expression(0))
-	arg2 := v.Visit(ctx.Expression(1))
+	arg1 := v.visitOperand(ctx.Expression(0))
+	arg2 := v.visitOperand(ctx.Expression(1))
 
 	return fmt.Sprintf("%s ^ %s", arg1, arg2)
 }
 
 // VisitConcatenation deals with string concatenations like "foo" & "bar"
 func (v *legacyVisitor) VisitConcatenation(ctx *gen.ConcatenationContext) any {
-	arg1 := v.Visit(ctx.Expression(0))
-	arg2 := v.Visit(ctx.Expression(1))
+	arg1 := v.visitOperand(ctx.Expression(0))
+	arg2 := v.visitOperand(ctx.Expression(1))
 
 	return fmt.Sprintf("%s & %s", arg1, arg2)
 }
 
 // VisitAdditionOrSubtractionExpression deals with addition and subtraction like 5+5 and 5-3
 func (v *legacyVisitor) VisitAdditionOrSubtractionExpression(ctx *gen.AdditionOrSubtractionExpressionContext) any {
-	arg1 := v.Visit(ctx.Expression(0)).(string)
-	arg2 := v.Visit(ctx.Expression(1)).(string)
+	arg1 := v.visitOperand(ctx.Expression(0))
+	arg2 := v.visitOperand(ctx.Expression(1))
 
 	op := "+"
 	if ctx.MINUS() != nil {
 		op = "-"
 	}
+
+	// where the second operand is negated below, it must stay one operand
+	negatable := group(arg2)
 
 	// see if either of our arguments is a date value
 	arg1Type := inferType(arg1)
@@ -122,6 +135,9 @@ func (v *legacyVisitor) VisitAdditionOrSubtractionExpression(ctx *gen.AdditionOr
 			template = `datetime_add(%s, -%s, "D")`
 		}
 
+		if op == "-" {
+			return fmt.Sprintf(template, arg1, negatable)
+		}
 		return fmt.Sprintf(template, arg1, arg2)
 
 	} else if arg1Type == "date" && arg2Type == "number" {
@@ -135,6 +151,9 @@ func (v *legacyVisitor) VisitAdditionOrSubtractionExpression(ctx *gen.AdditionOr
 			template = wrap(template, "format_date")
 		}
 
+		if op == "-" {
+			return fmt.Sprintf(template, arg1, negatable)
+		}
 		return fmt.Sprintf(template, arg1, arg2)
 
 	} else if arg1Type == "datetime" && arg2Type == "time" {
@@ -158,13 +177,13 @@ func (v *legacyVisitor) VisitAdditionOrSubtractionExpression(ctx *gen.AdditionOr
 	if op == "+" {
 		return fmt.Sprintf("legacy_add(%s, %s)", arg1, arg2)
 	}
-	return fmt.Sprintf("legacy_add(%s, -%s)", arg1, arg2)
+	return fmt.Sprintf("legacy_add(%s, -%s)", arg1, negatable)
 }
 
 // VisitEquality deals with equality or inequality tests 5 = 5 and 5 != 5
 func (v *legacyVisitor) VisitEqualityExpression(ctx *gen.EqualityExpressionContext) any {
-	arg1 := v.Visit(ctx.Expression(0))
-	arg2 := v.Visit(ctx.Expression(1))
+	arg1 := v.visitOperand(ctx.Expression(0))
+	arg2 := v.visitOperand(ctx.Expression(1))
 
 	if ctx.EQ() != nil {
 		return fmt.Sprintf("%s = %s", arg1, arg2)
@@ -175,8 +194,8 @@ func (v *legacyVisitor) VisitEqualityExpression(ctx *gen.EqualityExpressionConte
 
 // VisitMultiplicationOrDivision deals with division and multiplication such as 5*5 or 5/2
 func (v *legacyVisitor) VisitMultiplicationOrDivisionExpression(ctx *gen.MultiplicationOrDivisionExpressionContext) any {
-	arg1 := v.Visit(ctx.Expression(0))
-	arg2 := v.Visit(ctx.Expression(1))
+	arg1 := v.visitOperand(ctx.Expression(0))
+	arg2 := v.visitOperand(ctx.Expression(1))
 
 	if ctx.TIMES() != nil {
 		return fmt.Sprintf("%s * %s", arg1, arg2)
@@ -187,8 +206,8 @@ func (v *legacyVisitor) VisitMultiplicationOrDivisionExpression(ctx *gen.Multipl
 
 // VisitComparison deals with visiting a comparison between two values, such as 5<3 or 3>5
 func (v *legacyVisitor) VisitComparisonExpression(ctx *gen.ComparisonExpressionContext) any {
-	arg1 := v.Visit(ctx.Expression(0))
-	arg2 := v.Visit(ctx.Expression(1))
+	arg1 := v.visitOperand(ctx.Expression(0))
+	arg2 := v.visitOperand(ctx.Expression(1))
 
 	return fmt.Sprintf("%s %s %s", arg1, ctx.GetOp().GetText(), arg2)
 }
